@@ -19,6 +19,7 @@ import (
 	"strings"
 	"sync"
 	"testing"
+	"time"
 
 	"pgregory.net/rapid"
 )
@@ -282,4 +283,29 @@ func FindingOpen(id string) bool {
 	})
 	f, ok := findings[id]
 	return ok && f.Status == "open"
+}
+
+// Watchdog runs f and reports whether it returned within d. A false return means f is still running
+// (the goroutine cannot be reclaimed): callers must treat it as fatal (see Result.Fatal / Die).
+func Watchdog(d time.Duration, f func()) (ok bool, panicked any) {
+	done := make(chan any, 1)
+	go func() {
+		defer func() { done <- recover() }()
+		f()
+	}()
+	select {
+	case p := <-done:
+		return true, p
+	case <-time.After(d):
+		return false, nil
+	}
+}
+
+// Die writes the failing case as the replay file of this shard and exits the process at once. Used when the
+// code under test hangs or spins: the leaked goroutine makes further generation and shrinking meaningless.
+func Die[C any](unit string, c C, msg string) {
+	raw, _ := json.Marshal(c)
+	writeFail(unit, raw, msg)
+	fmt.Printf("FATAL-CASE unit=%s %s\n", unit, msg)
+	os.Exit(3)
 }
